@@ -21,8 +21,10 @@ ID = "C16"
 LEVEL = "exploration"
 DESIGN_REF = "DESIGN.md §4 C16"
 RULE = (
-    "(a) all sequences of put(A|A'|B|C)/get_nowait of length <= L (quick 8, thorough 10) on the real EventQueue, "
-    "A' == A but a distinct object, items are (event, watch) tuples as the observer queues them; (b) concurrent "
+    "(a) all sequences of put(A|A'|B)/get_nowait of length <= L (quick 7, thorough 9) on the real EventQueue plus all of "
+    "length <= 5 (thorough 6) that also use C (same event, watch with the other recursive flag) or D (same event, same "
+    "watch but for its event filter); A' == A but a distinct object, items are (event, watch) tuples as the observer "
+    "queues them, and which items count as equal is written down in the check, not taken from the library's __eq__; (b) concurrent "
     "histories of 1-3 producers and a consumer under generated schedules, checked for linearizability; (c) Hypothesis "
     "pairs of event objects over all classes, str/bytes paths, synthetic flag.  non-trivial (a/b) = an equal item is "
     "offered while its twin is still queued, or right after it was dequeued, or separated by a different item; (c) = "
@@ -46,7 +48,13 @@ def make_items():
         "A'": (FileCreatedEvent("/r/a"), ObservedWatch("/r", recursive=True)),
         "B": (FileModifiedEvent("/r/a"), w),
         "C": (FileCreatedEvent("/r/a"), ObservedWatch("/r", recursive=False)),
+        "D": (FileCreatedEvent("/r/a"), ObservedWatch("/r", recursive=True, event_filter=[FileCreatedEvent])),
     }
+
+
+# which items are "equal" is the statement's notion (same class, same field values; same watch = same path, recursive
+# flag and filter), written down here and not taken from the library's __eq__
+CLASS = {"A": 1, "A'": 1, "B": 2, "C": 3, "D": 4}
 
 
 def spec_step(states, op, items, result=None):
@@ -63,7 +71,7 @@ def spec_step(states, op, items, result=None):
         return new
     for q in states:
         new.add(q + (op,))
-        if q and items[q[-1]] == items[op]:
+        if q and CLASS[q[-1]] == CLASS[op]:
             new.add(q)  # permitted drop
     return new
 
@@ -104,7 +112,7 @@ def run_sequence(seq):
 
 
 def classify_seq(seq):
-    items = {"A": 1, "A'": 1, "B": 2, "C": 3}
+    items = CLASS
     cl = set()
     qd = []
     last_got = None
@@ -164,9 +172,9 @@ def check_equality(pair):
     w1, w2 = ObservedWatch("/r", recursive=True), ObservedWatch("/r", recursive=True)
     if ((a, w1) == (b, w2)) != exp:
         raise Violation(f"(event, watch) tuples: {(a, w1)} == {(b, w2)} is {(a, w1) == (b, w2)}, expected {exp}", "tuple-eq")
-    w3 = ObservedWatch("/r", recursive=False)
-    if (a, w1) == (a, w3):
-        raise Violation("(event, watch) tuples with different watches compare equal", "tuple-eq")
+    for w3 in (ObservedWatch("/r", recursive=False), ObservedWatch("/r", recursive=True, event_filter=[type(a)]), ObservedWatch("/r", recursive=True, event_filter=[]), ObservedWatch("/r2", recursive=True)):
+        if (a, w1) == (a, w3) or not ((a, w1) != (a, w3)):
+            raise Violation(f"(event, watch) tuples with different watches compare equal: {w1} and {w3}", "tuple-eq")
     same_fields = fa[1:] == fb[1:]
     return exp or (same_fields and fa[0] is not fb[0]), ["eq:equal" if exp else ("eq:same-fields-other-class" if same_fields else "eq:different")]
 
@@ -174,7 +182,7 @@ def check_equality(pair):
 # ----------------------------------------------------------------------------- shards
 
 NSH = 16
-OPS = ["A", "A'", "B", "C", GET]
+OPS = ["A", "A'", "B", "C", "D", GET]
 
 
 def seqs(tier):
@@ -183,9 +191,9 @@ def seqs(tier):
     for n in range(0, L + 1):
         yield from itertools.product(ops, repeat=n)
     # longer sequences with the 4th item (same event, other watch) on a sample basis: all of length <= 6 over 5 ops
-    for n in range(1, 6 if tier == "quick" else 8):
+    for n in range(1, 6 if tier == "quick" else 7):
         for s in itertools.product(OPS, repeat=n):
-            if "C" in s:
+            if "C" in s or "D" in s:
                 yield s
 
 
